@@ -468,8 +468,11 @@ func HistoryTree.Add
 func HistoryTree.AddBulk
   modifies everything
   ensures isnil(result_2) && len(result_0) == len(eventDigests)
+// (ghost bookkeeping: that a membership proof was asked for, and for which version - the
+// audit-path visitor panics on a node the tree does not have, i.e. for a version beyond the log)
 func HistoryTree.ProveMembership
-  modifies everything
+  modifies everything, proveCalls, lastProveVersion
+  assumes proveCalls == old(proveCalls) + 1 && lastProveVersion == version
 func HistoryTree.ProveConsistency
   modifies everything
   ensures isnil(result_1) ==> result_0 != nil
